@@ -37,6 +37,14 @@ type Runner struct {
 	absLevel map[types.Pubkey]int
 	Steps    []string // human-readable history for failure reports
 	LogSteps bool
+	// Mirrors receive exactly the same ABCI requests as N; the deterministic part of
+	// every response is compared and the first difference is recorded in Divergence.
+	Mirrors    []*Node
+	Divergence string
+	// Halted is set when the application's validator set became empty: a consensus
+	// engine cannot continue from there (Tendermint rejects an empty validator set),
+	// so histories end at that point.
+	Halted bool
 
 	// per-history facts usable as non-triviality signals
 	AcceptedTx   int
@@ -57,6 +65,16 @@ func (r *Runner) logf(f string, a ...interface{}) {
 	if r.LogSteps && len(r.Steps) < 4000 {
 		r.Steps = append(r.Steps, fmt.Sprintf(f, a...))
 	}
+}
+
+// sameTail compares the last transcript line of a mirror with the primary's.
+func (r *Runner) sameTail(m *Node) bool {
+	a, b := r.N.Trace[len(r.N.Trace)-1], m.Trace[len(m.Trace)-1]
+	if a != b {
+		r.Divergence = fmt.Sprintf("responses differ at height %d:\n  primary(%s): %s\n  mirror(%s):  %s", r.N.CurHeight+r.N.LastHeight*0, r.N.Name, trunc(a, 1500), m.Name, trunc(b, 1500))
+		return false
+	}
+	return true
 }
 
 // Fail reports the first recorded panic, if any.
@@ -167,11 +185,20 @@ func (r *Runner) NextEvidence(t *rapid.T) []Evidence {
 // Block generates and executes one block. Returns false if an ABCI call panicked.
 func (r *Runner) Block(t *rapid.T) bool {
 	n := r.N
+	if r.Halted {
+		return true
+	}
 	h := n.LastHeight + 1
 	req := BlockReq{Height: h, Time: r.NextTime(t), Votes: r.NextVotes(t), Evidence: r.NextEvidence(t)}
 	r.logf("BeginBlock h=%d t=%s votes=%s ev=%d", h, req.Time.Format("15:04:05"), voteString(req.Votes), len(req.Evidence))
 	if n.BeginBlock(req) {
 		return false
+	}
+	for _, m := range r.Mirrors {
+		m.BeginBlock(req)
+		if !r.sameTail(m) {
+			return false
+		}
 	}
 	if r.H.AfterBegin != nil {
 		r.H.AfterBegin(req)
@@ -195,6 +222,13 @@ func (r *Runner) Deliver(m *TxMeta) bool {
 		r.H.BeforeTx(m)
 	}
 	resp, ok := r.N.DeliverTx(m.Raw)
+	for _, mn := range r.Mirrors {
+		mn.DeliverTx(m.Raw)
+		if !r.sameTail(mn) {
+			r.logf("  tx %s type=%s -> code=%d (diverged)", m.Kind, m.Type, resp.Code)
+			return false
+		}
+	}
 	r.logf("  tx %s type=%s from=%s gas=%d pert=%q -> code=%d %s", m.Kind, m.Type, m.Sender.String()[:10], m.GasCoin, m.Perturbed, resp.Code, trunc(resp.Log, 90))
 	if !ok {
 		return false
@@ -227,6 +261,12 @@ func (r *Runner) Finish() bool {
 		r.H.BeforeEnd(h)
 	}
 	resp, ok := n.EndBlock()
+	for _, m := range r.Mirrors {
+		m.EndBlock()
+		if !r.sameTail(m) {
+			return false
+		}
+	}
 	if !ok {
 		return false
 	}
@@ -236,10 +276,21 @@ func (r *Runner) Finish() bool {
 	if r.H.AfterEnd != nil {
 		r.H.AfterEnd(h, resp)
 	}
-	if _, ok := n.Commit(); !ok {
+	_, okc := n.Commit()
+	for _, m := range r.Mirrors {
+		m.Commit()
+		if !r.sameTail(m) {
+			return false
+		}
+	}
+	if !okc {
 		return false
 	}
 	r.Blocks++
+	if len(n.App.CurrentState().Validators().GetValidators()) == 0 {
+		r.Halted = true
+		r.logf("validator set is empty: history ends")
+	}
 	r.G.Refresh()
 	if r.H.AfterCommit != nil {
 		r.H.AfterCommit(h)
